@@ -34,11 +34,18 @@ Theorem formatter_is_inside_out : forall t outer core,
   D t (P outer core) (starts_pfx outer) = P (layers t ++ outer) core.
 Proof. exact DP_eq. Qed.
 
+(* format() parses back in alias position (function types excepted: known finding F26b) *)
+Theorem format_parses_back_as_alias : forall t rest,
+  wf t -> kind_of t <> KFn -> follow_ok rest = true ->
+  ev (fun f => alias_type f (decl_toks t None ++ rest)) (DOk (t, rest)).
+Proof. exact alias_roundtrip. Qed.
+
 (* the code the model mirrors is the pinned one, and the token sets it tests
    the stream for are the sets the model hard-codes (regenerated on every run) *)
 Theorem parser_side_is_the_modelled_one : decl_sets_ok = true.
 Proof. exact decl_sets_ok_true. Qed.
 
+Print Assumptions format_parses_back_as_alias.
 Print Assumptions parser_side_is_the_modelled_one.
 Print Assumptions format_decl_parses_back.
 Print Assumptions format_parses_back_as_parameter.
